@@ -66,6 +66,25 @@ def check(tier, seed, replay=None):
                 s_["off"] = (-1 if c["sense"] == "max" else 1) * int(0.8 * big)
                 shifted.append(s_)
         cases += shifted
+        # the knapsack models turned into covering models (y = 1 - x: minimise the cost of what is left out,
+        # the weight left out must reach the excess), with negative constants that bring the visible minimum
+        # towards zero from above: the gap test of a minimisation has the bound BELOW the incumbent
+        covering = []
+        for c in cases:
+            if c["id"].startswith("Knap") and not c["id"].endswith("_off") and c["sense"] == "max" and all(v["kind"] == "bool" for v in c["vars"]) \
+                    and all(r["cmp"] == "le" for r in c["rows"]):
+                big = sum(abs(x) for x in c["obj"])
+                for k, frac in enumerate((0.3, 0.5, 0.7)):
+                    m_ = copy.deepcopy(c)
+                    m_["id"] = f"{c['id']}_cov{k}"
+                    m_["sense"] = "min"
+                    m_["off"] = -int(frac * big)
+                    for r in m_["rows"]:
+                        r["cmp"] = "ge"
+                        r["b"] = sum(r["a"]) - r["b"]
+                    covering.append(m_)
+        meta["covering"] = {"cases": len(covering)}
+        cases += covering
         for i, c in enumerate(cases):
             c["opts"] = opts_for(i, seed)
     # timing-sensitive: run sequentially on few processes so limits fire at varied points
